@@ -2,6 +2,9 @@
 //! from /repo's working tree.  `replay` feeds TLC-generated vectors into the real public API;
 //! `record` drives the real code and writes ndjson events for TLC trace validation.
 mod common;
+mod latest;
+mod search;
+mod sim;
 mod sweep;
 
 use common::Args;
@@ -11,6 +14,8 @@ fn main() {
     let args = Args::parse();
     match args.module.as_str() {
         "sweep" => sweep::run(&args),
+        "search" => search::run(&args),
+        "latest" => latest::run(&args),
         m => {
             eprintln!("unknown module {m}");
             std::process::exit(2);
